@@ -374,22 +374,54 @@ func ruleT6(c *Ctx) *RuleResult {
 		} else {
 			r.fail(fnn+"|raises-pending", c.Pos(fn.Pos()), fnn, "a parameter change raises the pending flag", "no store of true to pendingParamsChange")
 		}
-		// (b) clears it only when consumed at a random-access unit
-		pendConds := ifsOn(fn, func(v ssa.Value) bool { f, _ := loadedField(v); return f == pending })
+		// (b) clears it only when consumed at a random-access unit — in the writer itself, or in a helper that
+		// the writer calls with its random-access flag and whose result is the params-changed flag
+		cfn, cra, cpc, cFalse := fn, ra, pc, setFalse
 		if len(setFalse) == 0 {
+			if call, ok := pc.(*ssa.Call); ok && call.Call.StaticCallee() != nil && InLib(call.Call.StaticCallee()) {
+				h := call.Call.StaticCallee()
+				var hFalse []*ssa.Store
+				allInstrs(h, func(in ssa.Instruction) {
+					if st, ok := in.(*ssa.Store); ok {
+						f, _ := fieldOfAddr(st.Addr)
+						if b, isB := constBool(st.Val); f == pending && isB && !b {
+							hFalse = append(hFalse, st)
+						}
+					}
+				})
+				var hra ssa.Value
+				for j, a := range call.Call.Args {
+					if stripConv(a) == stripConv(ra) && j < len(h.Params) {
+						hra = h.Params[j]
+					}
+				}
+				var hpc ssa.Value
+				for _, b := range h.Blocks {
+					if ret, ok := b.Instrs[len(b.Instrs)-1].(*ssa.Return); ok && len(ret.Results) == 1 {
+						hpc = retVal(ret, 0)
+					}
+				}
+				if len(hFalse) > 0 && hra != nil && hpc != nil {
+					cfn, cra, cpc, cFalse = h, hra, hpc, hFalse
+				}
+			}
+		}
+		craConds := ifsOn(cfn, condIs(cra))
+		pendConds := ifsOn(cfn, func(v ssa.Value) bool { f, _ := loadedField(v); return f == pending })
+		if len(cFalse) == 0 {
 			r.fail(fnn+"|consumes-pending", c.Pos(fn.Pos()), fnn, "the pending flag is consumed at the next random-access unit", "the flag is never cleared: every later key frame forces a cut")
 		}
-		for i, st := range setFalse {
+		for i, st := range cFalse {
 			key := fmt.Sprintf("%s|consumes-pending#%d", fnn, i+1)
 			switch {
-			case len(raConds) == 0 || !onlyIf(fn, st, raConds, true):
+			case len(craConds) == 0 || !onlyIf(cfn, st, craConds, true):
 				r.fail(key, c.Pos(st.Pos()), fnn, "the pending flag is cleared only at a random-access unit", "the clear is reachable when the random-access flag is false: a change delivered in a non-key unit is forgotten before the key frame that must cut the segment")
-			case len(pendConds) == 0 || !onlyIf(fn, st, pendConds, true):
+			case len(pendConds) == 0 || !onlyIf(cfn, st, pendConds, true):
 				r.fail(key, c.Pos(st.Pos()), fnn, "the pending flag is cleared only when it was set", "clear not control dependent on the flag")
 			default:
 				// the params-changed value is true exactly on that path: phi edge from the clearing block is true
 				okPC := false
-				if phi, ok := pc.(*ssa.Phi); ok {
+				if phi, ok := cpc.(*ssa.Phi); ok {
 					for k, e := range phi.Edges {
 						if b, isB := constBool(e); isB && b {
 							pred := phi.Block().Preds[k]
@@ -400,7 +432,7 @@ func ruleT6(c *Ctx) *RuleResult {
 					}
 				}
 				if okPC {
-					r.ok(key, c.Pos(st.Pos()), fnn, "the pending flag is consumed at a random-access unit and turns into paramsChanged=true for that unit", "clear is control dependent on randomAccess && pending; paramsChanged is true on that path")
+					r.ok(key, c.Pos(st.Pos()), fnn, "the pending flag is consumed at a random-access unit and turns into paramsChanged=true for that unit", "clear is control dependent on randomAccess && pending; paramsChanged is true on that path"+map[bool]string{true: " (in " + FuncName(cfn) + ", called with the random-access flag)", false: ""}[cfn != fn])
 				} else {
 					r.fail(key, c.Pos(st.Pos()), fnn, "consuming the pending flag makes paramsChanged true for that unit", "paramsChanged is not set on the consuming path: the change never forces a cut nor an init regeneration")
 				}
@@ -637,6 +669,40 @@ func ruleG3(c *Ctx) *RuleResult {
 		}
 		if n == 0 {
 			r.undecided("%s: %s — %s (the construct this rule is anchored on was not found: no verdict)", "muxerStream."+name+"|none", name+" is incremented somewhere", "no increment found")
+		}
+	}
+	// converse, anchored on the action: every shrink of the window is followed, before any return, by the increment
+	if delF0 := c.Field("", "muxerStream", "segmentDeleteCount"); delF0 != nil && segF != nil {
+		k := 0
+		for _, fn := range c.Funcs {
+			allInstrs(fn, func(in ssa.Instruction) {
+				st, ok := in.(*ssa.Store)
+				if !ok {
+					return
+				}
+				if sf, _ := fieldOfAddr(st.Addr); sf != segF {
+					return
+				}
+				if _, isSlice := st.Val.(*ssa.Slice); !isSlice {
+					return
+				}
+				k++
+				key := fmt.Sprintf("%s|shrink-counts#%d", FuncName(fn), k)
+				what := "every drop of the window head is counted in segmentDeleteCount before the function can return"
+				bad := pathAvoiding(c, fn, st, func(x ssa.Instruction) bool {
+					s2, ok := x.(*ssa.Store)
+					if !ok {
+						return false
+					}
+					f2, _ := fieldOfAddr(s2.Addr)
+					return f2 == delF0
+				}, func(x ssa.Instruction) bool { _, isRet := x.(*ssa.Return); return isRet })
+				if bad == nil {
+					r.ok(key, c.Pos(st.Pos()), FuncName(fn), what, "no path from the shrink to a return avoids the increment")
+				} else {
+					r.fail(key, c.Pos(st.Pos()), FuncName(fn), what, "a path drops the head without counting it: EXT-X-MEDIA-SEQUENCE stops advancing while segments leave the playlist, so clients take the new first segment for the old one", bad...)
+				}
+			})
 		}
 	}
 	// MEDIA-SEQUENCE = segmentDeleteCount; segment id = nextSegmentID; part id = nextPartID
@@ -918,7 +984,7 @@ func derivesFromParam(v ssa.Value, p *ssa.Parameter, depth int) bool {
 }
 
 func ruleG8(c *Ctx) *RuleResult {
-	r := &RuleResult{Floor: 2, FloorWhat: "window comparisons in the playlist generator"}
+	r := &RuleResult{Floor: 1, FloorWhat: "window comparisons in the playlist generator"}
 	fn := c.Method("", "muxerStream", "generateMediaPlaylistFMP4")
 	if fn == nil {
 		r.undecided("generateMediaPlaylistFMP4 not found")
